@@ -223,7 +223,11 @@ impl World for SimWorld {
         self.next_conn += 1;
         let t = self.now();
         match &self.conns[idx] {
-            Conn::Refuse { kind } => {
+            Conn::Refuse { kind, dt_us } => {
+                let (kind, dt_us) = (kind.clone(), *dt_us);
+                if dt_us != 0 { self.advance(dt_us); }
+                let t = self.now();
+                let kind = &kind;
                 let mut tr = self.trace.lock().unwrap();
                 tr.seam.push(SeamEv::Connect { t_us: t, conn: idx, ok: false });
                 tr.consumed_ops += 1;
@@ -250,7 +254,7 @@ impl World for SimWorld {
                 self.next_op = 0;
                 Ok(idx as u64)
             }
-            Some(Conn::Refuse { kind }) => {
+            Some(Conn::Refuse { kind, .. }) => {
                 self.trace.lock().unwrap().seam.push(SeamEv::Open { t_us: t, ok: false });
                 Err(error_of(kind))
             }
